@@ -396,8 +396,10 @@ def pass1 (blocks : Blocks) : List Str → List Node → List NodeOut
 def vmatch (v : VSlot) (m : Method) : Bool := m.name = v.name && m.ret = v.ret && m.nparams = v.nparams
 
 /-- `_pair_class_virtuals` for one slot: own block `Struct::name` (`own`), else the field's doc; then
-    the first matching method becomes the invoker and its block is applied on top.  Methods come
-    paired with `self._blocks.get(method.symbol)`. -/
+    the first matching method becomes the invoker.  A slot WITHOUT a block of its own also gets the
+    invoker's block applied on top; one with a block only learns the invoker's name
+    (`_get_vfunc_block(node, vfunc) is not None`).  Methods come paired with
+    `self._blocks.get(method.symbol)`. -/
 def vfuncPair (own : Option Block) (fieldDoc : Option Str) (methods : List (Method × Option Block)) (v : VSlot) :
     Except Err Elem := do
   let e := match own with
@@ -406,28 +408,43 @@ def vfuncPair (own : Option Block) (fieldDoc : Option Str) (methods : List (Meth
   let e ← applyCallable false e own
   match methods.find? (fun m => vmatch v m.1) with
   | none => pure e
-  | some m => applyCallable false { e with invoker := some m.1.name } m.2
+  | some m =>
+    if own.isSome then pure { e with invoker := some m.1.name }
+    else applyCallable false { e with invoker := some m.1.name } m.2
 
-/-- `for vfunc in parent.virtual_methods: if vfunc.name == invoker_name: ...; break` -/
-def virtualApply (fname : Str) (b : Block) (slot : Str) : List (Str × Elem) → Except Err (List (Str × Elem))
+/-- `for vfunc in parent.virtual_methods: if vfunc.name == invoker_name: ...; break`; `owned nm` is
+    `_get_vfunc_block(parent, vfunc) is not None` -/
+def virtualApply (owned : Str → Bool) (fname : Str) (b : Block) (slot : Str) :
+    List (Str × Elem) → Except Err (List (Str × Elem))
   | [] => .ok []
   | (nm, e) :: rest =>
-    if nm = slot then do
-      let e' ← applyCallable false { e with invoker := some fname } (some b)
-      pure ((nm, e') :: rest)
+    if nm = slot then
+      if owned nm then .ok ((nm, { e with invoker := some fname }) :: rest)
+      else do
+        let e' ← applyCallable false { e with invoker := some fname } (some b)
+        pure ((nm, e') :: rest)
     else do
-      let rest' ← virtualApply fname b slot rest
+      let rest' ← virtualApply owned fname b slot rest
       pure ((nm, e) :: rest')
+
+/-- the usable `(virtual slot)` annotation of a function: the option list is not empty and the
+    function `is_method` (paired as a method, or annotated `(method)`); on anything else the
+    annotation is warned about and ignored -/
+def virtualSlot (paired : Method → Bool) (f : Method × Option Block) : Option (Block × Str) :=
+  match f.2 with
+  | none => none
+  | some b =>
+    match b.get annVfunc with
+    | some (slot :: _) => if paired f.1 || b.has annMethod then some (b, slot) else none
+    | _ => none
 
 /-- the `(virtual slot)` part of `_pass_read_annotations2` for one function `f` (with its block) of a
     class whose virtual methods currently are `vs` (slot name, state) -/
-def virtualStep (vs : List (Str × Elem)) (f : Method × Option Block) : Except Err (List (Str × Elem)) :=
-  match f.2 with
+def virtualStep (owned : Str → Bool) (paired : Method → Bool) (vs : List (Str × Elem)) (f : Method × Option Block) :
+    Except Err (List (Str × Elem)) :=
+  match virtualSlot paired f with
+  | some (b, slot) => virtualApply owned f.1.name b slot vs
   | none => .ok vs
-  | some b =>
-    match b.get annVfunc with
-    | some (slot :: _) => virtualApply f.1.name b slot vs
-    | _ => .ok vs
 
 /-- order in which `Node._walk` visits the functions of a container -/
 def walkFuncs (n : Node) : List Method :=
@@ -439,10 +456,15 @@ def walkFuncs (n : Node) : List Method :=
   | _ => []
 
 /-- does any visited function carry a usable `(virtual ...)` annotation? -/
-def hasVirtualAnn (fs : List (Method × Option Block)) : Bool :=
-  fs.any (fun f => match f.2 with
-    | some b => match b.get annVfunc with | some (_ :: _) => true | _ => false
-    | none => false)
+def hasVirtualAnn (paired : Method → Bool) (fs : List (Method × Option Block)) : Bool :=
+  fs.any (fun f => (virtualSlot paired f).isSome)
+
+/-- `method in node.methods` (functions are identified by their C symbol) -/
+def pairedIn (n : Node) (f : Method) : Bool := n.methods.any (fun m => m.symbol = f.symbol)
+
+/-- `_get_vfunc_block(parent, vfunc) is not None`, by slot name -/
+def ownedIn (slots : List (VSlot × Option Block)) (nm : Str) : Bool :=
+  slots.any (fun s => s.1.name = nm && s.2.isSome)
 
 /-- each function with `self._blocks.get(symbol)` -/
 def withBlocks (blocks : Blocks) (fs : List Method) : List (Method × Option Block) :=
@@ -460,11 +482,12 @@ def vfuncsPairCore (n : Node) (fieldDoc : Str → Option Str) (slots : List (VSl
   else .ok []
 
 /-- the `(virtual slot)` annotations of the container's functions (`_pass_read_annotations2`, in
-    walk order) applied to the virtual methods `vs` produced by the pairing -/
-def vfuncsVirtualCore (n : Node) (funcs : List (Method × Option Block)) (vs : List (Str × Elem)) :
-    Except Err (List (Str × Elem)) :=
-  if hasProps n then funcs.foldlM virtualStep vs
-  else if hasVirtualAnn funcs then .error .attributeError
+    walk order) applied to the virtual methods `vs` produced by the pairing; a container without
+    `virtual_methods` (record, union) raises AttributeError on the first usable annotation -/
+def vfuncsVirtualCore (n : Node) (slots : List (VSlot × Option Block)) (funcs : List (Method × Option Block))
+    (vs : List (Str × Elem)) : Except Err (List (Str × Elem)) :=
+  if hasProps n then funcs.foldlM (virtualStep (ownedIn slots) (pairedIn n)) vs
+  else if hasVirtualAnn (pairedIn n) funcs then .error .attributeError
   else .ok vs
 
 /-- all virtual methods of a container: pairing, then the `(virtual)` annotations.  (In
@@ -473,7 +496,7 @@ def vfuncsVirtualCore (n : Node) (funcs : List (Method × Option Block)) (vs : L
 def vfuncsCore (n : Node) (fieldDoc : Str → Option Str) (slots : List (VSlot × Option Block))
     (methods funcs : List (Method × Option Block)) : Except Err (List (Str × Elem)) := do
   let vs ← vfuncsPairCore n fieldDoc slots methods
-  vfuncsVirtualCore n funcs vs
+  vfuncsVirtualCore n slots funcs vs
 
 /-- the keys `_pair_class_virtuals` looks the slots' own blocks up with -/
 def slotBlocks (blocks : Blocks) (n : Node) : List (VSlot × Option Block) :=
@@ -566,6 +589,8 @@ def accessorStep (p : PropInfo) (setter : Option Str) (cands : List (Str × Nat)
       { st with prop := (some m.name, st.prop.2), ms := st.ms.set i (m, some p.name, gp) }
     else match candPrio cands m.name with
       | some prio =>
+        -- a method that already is the getter of another property is not an inferred candidate
+        if prio < 99 && gp.isSome && gp != some p.name then st else
         let cur : Int := match st.prop.2 with
           | some (c :: cs) => match candPrio cands (c :: cs) with | some q => q | none => -1
           | _ => -1
@@ -676,7 +701,7 @@ def annotateAll (blocks : Blocks) (ns : List Node) : Except Err Result := do
     vfuncsPairCore p.1 (fieldDocOf ns rs p.1.structAnn) (slotBlocks bl p.1) (withBlocks bl p.1.methods))
   -- ... and only then the (virtual) annotations of _pass_read_annotations2, again in namespace order
   let rs ← ((ns.zip rs).zip paired).mapM (fun q => do
-    let vs ← vfuncsVirtualCore q.1.1 (withBlocks bl (walkFuncs q.1.1)) q.2
+    let vs ← vfuncsVirtualCore q.1.1 (slotBlocks bl q.1.1) (withBlocks bl (walkFuncs q.1.1)) q.2
     pure { q.1.2 with vfuncs := vs })
   -- _pair_property_accessors
   let (rs, fel) := pairAccessorsAll (ns.zip rs) fel
